@@ -579,10 +579,14 @@ class BaseNode402(RemoteNode):
         if from_state is None:
             from_state = self.state
         try:
-            self.controlword = State402.TRANSITIONTABLE[(from_state, target_state)]
+            controlword = State402.TRANSITIONTABLE[(from_state, target_state)]
         except KeyError:
             raise ValueError(
                 f'Illegal state transition from {from_state} to {target_state}')
+        if from_state == 'FAULT':
+            # Fault reset acts on a rising edge of bit 7: make sure it is low first
+            self.controlword = State402.CW_DISABLE_VOLTAGE
+        self.controlword = controlword
         timeout = time.monotonic() + self.TIMEOUT_SWITCH_STATE_SINGLE
         while self.state != target_state:
             if time.monotonic() > timeout:
